@@ -11,3 +11,5 @@ import Xrfmv.Props.C16
 #print axioms Xrfmv.Props.C16.direction_table
 #print axioms Xrfmv.Props.C16.direction_covers_builtin
 #print axioms Xrfmv.Props.C16.flipped_direction_is_false
+#print axioms Xrfmv.Props.C16.gen_mean_metrics_eq_model
+#print axioms Xrfmv.Props.C16.gen_mean_metrics_shape
